@@ -309,7 +309,26 @@ GMFP = {
         CMP + 'forall|m: Mv| m.0 == square_cords && #[trigger] legal_from(board, m, move_generation_mode) ==> has_move(final(new_moves)@, old(new_moves)@.len() as int, m)',
         CMP + 'distinct_moves(final(new_moves)@, old(new_moves)@.len() as int)',
     ],
+    'after_stmt': [
+        ('promote_pawn(', 0, PROMO_CMP), ('promote_pawn(', 0, PROMO_SOUND),
+        ('promote_pawn(', 1, PROMO_CMP), ('promote_pawn(', 1, PROMO_SOUND),
+        ('new_board.zobrist_key ^= zobrist_hasher.get_val_for_en_passant(en_passant_square.1)', 0, KEY + """proof {
+                    let s = &new_board; let h = zobrist_hasher;
+                    let e = h.ep(en_passant_square.1 as int);
+                    lemma_key_component(kp(s, h), ks(s, h), kc1(s, h), kc2(s, h), kc3(s, h), kc4(s, h), 0u64, e);
+                    assert(key_ok(s, h));
+                }"""),
+    ],
     'after_text': [
+        ('if !is_check(&new_board, board.to_move) {', 0, SND + """proof {
+            %(FR)s
+            let s = &new_board;
+            assert(is_ep_capture(board, fr, fc, tr, tc));
+            assert(s.board == after_board(board, fr, fc, tr, tc, s.pawn_promotion));
+            assert(rights_ok(board));
+            assert(succ_ok(board, s, fr, fc, tr, tc));
+            assert(gen_sound(board, s, square_cords));
+        }""" % {'FR': FR}),
         ('new_moves.push(new_board);', 0, CMP + """proof {
                     lemma_step_push1(board, square_cords, moves@, __i - 1, pre, new_moves@, %(LO)s, new_moves@[new_moves@.len() - 1]);
                 }""" % {'LO': LO}),
@@ -353,15 +372,7 @@ GMFP = {
                 lemma_key_component(a, ks(s, h), kc1(s, h), kc2(s, h), kc3(s, h), kc4(s, h), ep_hash(s, h), d);
                 assert(key_ok(s, h));
             }"""),
-        ('new_moves.push(new_board);', 1, SND + """proof {
-            %(FR)s
-            let s = &new_board;
-            assert(is_ep_capture(board, fr, fc, tr, tc));
-            assert(s.board == after_board(board, fr, fc, tr, tc, s.pawn_promotion));
-            assert(rights_ok(board));
-            assert(succ_ok(board, s, fr, fc, tr, tc));
-            assert(gen_sound(board, s, square_cords));
-        }""" % {'FR': FR}),
+
         ('if is_check(&new_board, color) {', 0, """proof {
             %(FR)s
             assert(target_ok(board, fr, fc, mov));
@@ -371,17 +382,8 @@ GMFP = {
                 assert forall|i: int, j: int| in_arr(i, j) implies #[trigger] at(new_board.board, i, j) == (if i == tr && j == tc { Square::Full(piece) } else if i == fr && j == fc { Square::Empty } else { at(board.board, i, j) }) by {}
             }
         }""" % {'FR': FR}),
-        ('} else if mov.0 == BOARD_END - 1 && color == Black && kind == Pawn {', 0, PROMO_CMP),
-        ('} else if mov.0 == BOARD_END - 1 && color == Black && kind == Pawn {', 0, PROMO_SOUND),
-        ('} else {\n            new_moves.push(new_board);', 0, PROMO_CMP),
-        ('} else {\n            new_moves.push(new_board);', 0, PROMO_SOUND),
         ('// deal with pawn promotions', 0, 'let ghost pre_len = new_moves@.len();'),
-        ('} else {\n            // the most recent move was not a double pawn move', 0, KEY + """proof {
-                    let s = &new_board; let h = zobrist_hasher;
-                    let e = h.ep(en_passant_square.1 as int);
-                    lemma_key_component(kp(s, h), ks(s, h), kc1(s, h), kc2(s, h), kc3(s, h), kc4(s, h), 0u64, e);
-                    assert(key_ok(s, h));
-                }"""),
+
         ('new_moves.push(new_board);', 0, CMP + """proof {
             %(FR)s
             let s = &new_board;
